@@ -252,10 +252,10 @@ func acmBlob(total int, sizeField uint32, seed byte) []byte {
 		b[i] = seed + byte(i*7)
 	}
 	if total >= 28 {
-		binary.LittleEndian.PutUint16(b[0:], 2)      // module type
-		binary.LittleEndian.PutUint16(b[2:], 0)      // subtype
-		binary.LittleEndian.PutUint32(b[4:], 0xa1)   // header len
-		binary.LittleEndian.PutUint32(b[8:], 0)      // header version 0.0
+		binary.LittleEndian.PutUint16(b[0:], 2)    // module type
+		binary.LittleEndian.PutUint16(b[2:], 0)    // subtype
+		binary.LittleEndian.PutUint32(b[4:], 0xa1) // header len
+		binary.LittleEndian.PutUint32(b[8:], 0)    // header version 0.0
 		binary.LittleEndian.PutUint32(b[24:], sizeField)
 	}
 	return b
